@@ -78,6 +78,11 @@ fn progs_for(front: &str, tier: Tier) -> Vec<(Program, Mode)> {
     add("fresh-set|put", 1 << 20, vec![], vec![vec![api(Op::Set(k.clone(), v(0, 0)))], vec![api(Op::Put(j.clone(), v(1, 0)))]], false, b2);
     add("fresh-ensure|ensure", 1 << 20, vec![], vec![vec![api(Op::Ensure(k.clone(), Pop::Value(v(0, 0))))], vec![api(Op::Ensure(k.clone(), Pop::Value(v(1, 0))))]], false, b2);
     add("fresh-settemp|get", 1 << 20, vec![], vec![vec![api(Op::SetTemp(k.clone(), v(0, 0)))], vec![api(Op::Get(k.clone())), api(Op::Touch(k.clone()))]], false, b2);
+    // the entry an ensure has just published is deleted (or evicted) before it re-opens it
+    add("fresh-ensure|deleter", 1 << 20, vec![], vec![vec![api(Op::Ensure(k.clone(), Pop::Value(v(0, 0))))], vec![POp::Unlink(loc("k"))]], true, b2);
+    add("fresh-ensure-get|deleter", 1 << 20, vec![], vec![vec![api(Op::Ensure(k.clone(), Pop::Value(v(0, 0)))), api(Op::Get(k.clone()))], vec![POp::Unlink(loc("k")), POp::Unlink(loc("k"))]], true, b2);
+    add("replace|deleter", 1 << 20, vec![planted(&loc("k"), Val::new(0, Size::Five), false, 3)], vec![vec![api(Op::Gou(k.clone(), crate::ops::Act::Replace, Pop::Value(v(0, 0))))], vec![POp::Unlink(loc("k"))]], true, b2);
+    add("tiny-ensure|maint", if front == "sharded" { 2 } else { 1 }, vec![], vec![vec![api(Op::Ensure(k.clone(), Pop::Value(v(0, 0))))], vec![api(Op::Set(j.clone(), v(1, 0))), api(Op::Set(key3(), v(1, 1)))]], true, b2);
     if tier == Tier::Thorough {
         add("maint|maint|deleter", cap, crowd(), vec![vec![api(Op::Set(k.clone(), v(0, 0)))], vec![api(Op::Put(j.clone(), v(1, 0)))], vec![POp::Unlink(loc("x2"))]], true, b2);
         add("maint|maint-bound3", cap, crowd(), vec![vec![api(Op::Set(k.clone(), v(0, 0)))], vec![api(Op::Put(j.clone(), v(1, 0)))]], true, Mode::Bounded(3));
@@ -87,6 +92,10 @@ fn progs_for(front: &str, tier: Tier) -> Vec<(Program, Mode)> {
         add("fresh-ensure|ensure|get", 1 << 20, vec![], vec![vec![api(Op::Ensure(k.clone(), Pop::Value(v(0, 0))))], vec![api(Op::Ensure(j.clone(), Pop::Value(v(1, 0))))], vec![api(Op::Get(k.clone()))]], false, b2);
     }
     out
+}
+
+fn key3() -> crate::ops::K {
+    crate::ops::key_for_shards("m", 0, 1, 2)
 }
 
 pub fn programs(tier: Tier) -> Vec<(Program, Mode)> {
